@@ -6,12 +6,12 @@ import (
 
 func init() {
 	register(&Rule{
-		Name:    "DROPERR",
-		Doc:     "the error result of a call that may fail (mayFail summary: least fixpoint over static callees, dynamic callees may fail) is not discarded (bare call, `_ =`, `x, _ :=`): a dropped error silently changes the encoding/result",
-		Configs: "NP",
-		Floor:   map[string]int{"N": 35, "P": 35},
+		Name:     "DROPERR",
+		Doc:      "the error result of a call that may fail (mayFail summary: least fixpoint over static callees, dynamic callees may fail) is not discarded (bare call, `_ =`, `x, _ :=`): a dropped error silently changes the encoding/result",
+		Configs:  "NP",
+		Floor:    map[string]int{"N": 35, "P": 35},
 		Controls: 1,
-		Run:     runDropErr,
+		Run:      runDropErr,
 	})
 }
 
